@@ -161,13 +161,20 @@ class Pool:
         b.close()
         return {"p": p, "c": a, "task": None, "t0": 0.0}
 
-    def run(self, units, on_result):
-        """on_result(i, status, payload), status in ok / err / hang"""
+    def run(self, units, on_result, deadline=None):
+        """on_result(i, status, payload), status in ok / err / hang. After `deadline` (wall clock) no further unit is
+        started; the units already running are completed and self.not_started lists the ones never started."""
         pending = collections.deque(enumerate(units))
         self.workers = [self._spawn() for _ in range(min(self.jobs, max(1, len(units))))]
+        self.not_started = []
         done = 0
         total = len(units)
         while done < total:
+            if deadline is not None and pending and time.time() > deadline:
+                self.not_started = [i for i, _ in pending]
+                total -= len(pending)
+                pending.clear()
+                continue
             for w in self.workers:
                 if w["task"] is None and pending:
                     i, u = pending.popleft()
@@ -406,7 +413,15 @@ def run_check(mod, tier, seed, jobs, logpath):
             agg["errors"].append({"unit": repr(units[i])[:300], "error": payload})
 
     pool = Pool(mod.__name__, jobs, plan.get("unit_timeout", 600), logpath)
-    pool.run(units, on_result)
+    # the thorough tier walks its plan in plan order within a wall-clock budget (VERIF_THOROUGH_BUDGET_S, 0 = no budget);
+    # units that were never started are reported as a cap in the evidence, never as a pass
+    budget = float(os.environ.get("VERIF_THOROUGH_BUDGET_S", "420") or 0) if tier == "thorough" else 0
+    pool.run(units, on_result, deadline=(t0 + budget) if budget > 0 else None)
+    if pool.not_started:
+        agg["caps"].append({"cap": "wall_budget", "budget_s": budget, "units_not_started": len(pool.not_started), "units_planned": len(units),
+                            "first_not_started": repr(units[pool.not_started[0]])[:200]})
+        agg["counters"]["units_not_started_wall_budget"] = len(pool.not_started)
+        print(f"[{pid}] wall budget of {budget:.0f}s reached: {len(pool.not_started)} of {len(units)} planned units not started (reported as a cap)")
 
     if hasattr(mod, "finalize"):
         agg["violations"] += mod.finalize(agg, plan)
